@@ -15,7 +15,9 @@ WIDE = 1000000
 
 
 def analyse(lines_field, raws):
-    """raws: {u: raw text}. Returns (ok, why, f7) for the line-by-line oracle."""
+    """raws: {u: raw text}. Returns (ok, why, f7) for the line-by-line oracle. A layout line is `L:a:b` when its
+    indentation a*unit+b comes from nests alone and `A:a:b` when an `align` (the column of some text, as in the block
+    comment layout) contributes; `X` is a line copied from the source."""
     descs = [] if lines_field in ("", "fuel") else lines_field.split(",")
     per_u = {u: r.split("\n") for u, r in raws.items()}
     n = len(descs) + 1
@@ -35,6 +37,11 @@ def analyse(lines_field, raws):
             continue
         _, a, b = d.split(":")
         a, b = int(a), int(b)
+        if b != 0 and d.startswith("L:"):
+            # nested by a constant: not a whole multiple of every unit
+            nonblank = [u for u, ls in per_u.items() if ls[i].strip(" ") != ""]
+            if nonblank:
+                return False, "line %d is nested by %d*unit+%d: the constant part is not a multiple of the unit" % (i + 1, a, b), f7
         extra = None
         content = None
         for u, ls in per_u.items():
@@ -50,7 +57,7 @@ def analyse(lines_field, raws):
                 extra, content = e, body
             elif e != extra or body != content:
                 return False, "line %d: indentation is not %d*unit+%d for every unit (unit %d: %d blanks) or its text differs" % (i + 1, a, b, u, lead), f7
-        if b == 0 and extra:
+        if b == 0 and extra and d.startswith("L:"):
             f7 = True                         # a layout line whose own text starts with a blank (known finding F7)
     return True, "", f7
 
@@ -103,7 +110,7 @@ def run(tier, seed, replay=None):
     for (s, raws), m in zip(keep, mres):
         f = dict(x.split("=", 1) for x in m.split() if "=" in x)
         lines_field = f.get("lines", "")
-        nontrivial = any(d.startswith("L:") and not d.startswith("L:0:") for d in lines_field.split(","))
+        nontrivial = any(d[:2] in ("L:", "A:") and not d[1:].startswith(":0:") for d in lines_field.split(","))
         ck.count(s, nontrivial)
         if f.get("sym") != "1" or f.get("align") != "1" or set(f.get("inst", "0")) != {"1"}:
             bad_scale.append((s, m[:80]))
